@@ -7,6 +7,13 @@
 // thorough tier only) poll for a condition with a generous timeout; a timeout is a machinery failure
 // (exit 2), never a verdict.  The recorded trace is validated against spec/Outlier_Trace.tla.
 //
+// A scenario may use SEVERAL resources ("more" in the `new' line; req / obs carry "res"): they share the slot chain
+// and therefore the pool of entry contexts, in which the answer lists (FilterNodes / HalfOpenNodes) live - what a
+// request of one resource is told must not depend on what an earlier entry (of any resource) left in the context it
+// draws.  To make every scenario self-contained (and every replay file reproduce in a fresh process) the context
+// pool is emptied at the start of each scenario (two garbage collections empty a sync.Pool); inside a scenario
+// the contexts circulate as they do in production.
+//
 // usage: c20 <scenarios.ndjson> <trace.ndjson>
 package main
 
@@ -14,6 +21,7 @@ import (
 	"errors"
 	"fmt"
 	"os"
+	"runtime"
 	"sort"
 	"sync"
 	"time"
@@ -75,7 +83,8 @@ func arr(m hx.M, k string) []interface{} {
 
 type run struct {
 	tr      int64
-	res     string
+	res     string   // resource 1 (the resource of the timer operations)
+	names   []string // names[k-1] = resource k
 	base    int64
 	chain   *base.SlotChain
 	entries map[int64]*base.SentinelEntry
@@ -87,15 +96,56 @@ type run struct {
 
 // observe sends one request and returns filter and half-open sets (the entry exits without a callee:
 // the stat slot ignores completions that carry no address)
-func (r *run) observe() (filter, half []string) {
-	e, b := api.Entry(r.res, api.WithTrafficType(base.Outbound), api.WithResourceType(base.ResTypeRPC), api.WithSlotChain(r.chain))
-	if b != nil {
-		hx.Fatal("trace %d: observation request blocked: %v", r.tr, b.BlockType())
+func (r *run) observe() (filter, half []string) { return r.observeRes(r.res) }
+
+func (r *run) name(s hx.M) string {
+	k := hx.Int(s, "res")
+	if k == 0 {
+		k = 1
 	}
-	filter = sorted(e.Context().FilterNodes())
-	half = sorted(e.Context().HalfOpenNodes())
+	if k < 1 || int(k) > len(r.names) {
+		fatal("trace %d: resource %d is not part of the scenario", r.tr, k)
+	}
+	return r.names[k-1]
+}
+
+func resNo(s hx.M) int64 {
+	if k := hx.Int(s, "res"); k != 0 {
+		return k
+	}
+	return 1
+}
+
+func (r *run) observeRes(res string) (filter, half []string) {
+	e, b := api.Entry(res, api.WithTrafficType(base.Outbound), api.WithResourceType(base.ResTypeRPC), api.WithSlotChain(r.chain))
+	if b != nil {
+		fatal("trace %d: observation request blocked: %v", r.tr, b.BlockType())
+	}
+	filter, half = lists(e)
 	e.Exit()
 	return
+}
+
+var out *hx.Trace
+
+// some entry was told a non-empty list since the context pool was emptied
+var dirty bool
+
+func lists(e *base.SentinelEntry) (filter, half []string) {
+	filter = sorted(e.Context().FilterNodes())
+	half = sorted(e.Context().HalfOpenNodes())
+	if len(filter)+len(half) > 0 {
+		dirty = true
+	}
+	return
+}
+
+// fatal = hx.Fatal (exit 2) after flushing what was recorded so far: the check still judges the partial trace
+func fatal(format string, a ...interface{}) {
+	if out != nil {
+		out.Close()
+	}
+	hx.Fatal(format, a...)
 }
 
 func main() {
@@ -110,24 +160,38 @@ func main() {
 	clk.Install()
 	hx.InitSentinel()
 	tr := hx.NewTrace(os.Args[2])
+	out = tr
 	defer tr.Close()
 
 	chain := api.BuildDefaultSlotChain()
 	chain.AddRuleCheckSlot(outlier.DefaultSlot)
 	chain.AddStatSlot(outlier.DefaultMetricStatSlot)
 
+	entry := func(res string) *base.SentinelEntry {
+		e, b := api.Entry(res, api.WithTrafficType(base.Outbound), api.WithResourceType(base.ResTypeRPC), api.WithSlotChain(chain))
+		if b != nil {
+			fatal("request of %s blocked although no blocking rule is loaded: %v", res, b.BlockType())
+		}
+		return e
+	}
+
 	var r *run
 	for _, s := range scn {
 		switch op := hx.Str(s, "op"); op {
 		case "new":
-			rl := s["rule"].(map[string]interface{})
-			thr := arr(rl, "thr")
-			pct := arr(s, "pct")
-			I := hx.Int(rl, "I")
+			// one configuration per resource: the `new' line itself describes resource 1, "more" the others
+			cfgs := []hx.M{{"rule": s["rule"], "pct": s["pct"], "active": s["active"] == true}}
+			for _, m := range arr(s, "more") {
+				mm := m.(map[string]interface{})
+				cfgs = append(cfgs, hx.M{"rule": mm["rule"], "pct": mm["pct"], "active": mm["active"] == true})
+			}
 			r = &run{tr: hx.Int(s, "tr"), chain: chain, entries: map[int64]*base.SentinelEntry{},
 				h: &health{answer: map[string]bool{}, arrived: map[string]int{}}}
-			r.res = fmt.Sprintf("svc-%d", r.tr)
-			r.base = hx.BaseMs(lcm(lcm(I, 1000), 10000))
+			align := int64(10000)
+			for _, c := range cfgs {
+				align = lcm(align, lcm(hx.Int(c["rule"].(map[string]interface{}), "I"), 1000))
+			}
+			r.base = hx.BaseMs(align)
 			clk.SetMs(r.base)
 			if m, ok := s["healthy"].(map[string]interface{}); ok {
 				for k, v := range m {
@@ -140,55 +204,83 @@ func main() {
 			}
 			recS := uint32(hx.Int(s, "recycle_s"))
 			r.recycle = time.Duration(recS) * time.Second
-			rule := &outlier.Rule{
-				Rule: &circuitbreaker.Rule{
-					Resource:                     r.res,
-					Strategy:                     strategies[hx.Str(rl, "strategy")],
-					RetryTimeoutMs:               uint32(hx.Int(rl, "timeout")),
-					MinRequestAmount:             uint64(hx.Int(rl, "minAmt")),
-					StatIntervalMs:               uint32(I),
-					StatSlidingWindowBucketCount: uint32(hx.Int(rl, "nb")),
-					MaxAllowedRtMs:               uint64(hx.Int(rl, "maxRt")),
-					Threshold:                    thr[0].(float64) / thr[1].(float64),
-					ProbeNum:                     uint64(hx.Int(rl, "probeNum")),
-				},
-				EnableActiveRecovery: s["active"] == true,
-				MaxEjectionPercent:   pct[0].(float64) / pct[1].(float64),
-				RecoveryIntervalMs:   recov,
-				RecycleIntervalS:     recS, // 0 = the library's default of ten minutes: never fires during a run
-				MaxRecoveryAttempts:  3,
-				RecoveryCheckFunc:    r.h.check,
+			for k, c := range cfgs {
+				name := fmt.Sprintf("svc-%d", r.tr)
+				if k > 0 {
+					name = fmt.Sprintf("svc-%d-r%d", r.tr, k+1)
+				}
+				r.names = append(r.names, name)
+				rl := c["rule"].(map[string]interface{})
+				thr := arr(rl, "thr")
+				pct := arr(c, "pct")
+				rule := &outlier.Rule{
+					Rule: &circuitbreaker.Rule{
+						Resource:                     name,
+						Strategy:                     strategies[hx.Str(rl, "strategy")],
+						RetryTimeoutMs:               uint32(hx.Int(rl, "timeout")),
+						MinRequestAmount:             uint64(hx.Int(rl, "minAmt")),
+						StatIntervalMs:               uint32(hx.Int(rl, "I")),
+						StatSlidingWindowBucketCount: uint32(hx.Int(rl, "nb")),
+						MaxAllowedRtMs:               uint64(hx.Int(rl, "maxRt")),
+						Threshold:                    thr[0].(float64) / thr[1].(float64),
+						ProbeNum:                     uint64(hx.Int(rl, "probeNum")),
+					},
+					EnableActiveRecovery: c["active"] == true,
+					MaxEjectionPercent:   pct[0].(float64) / pct[1].(float64),
+					RecoveryIntervalMs:   recov,
+					RecycleIntervalS:     recS, // 0 = the library's default of ten minutes: never fires during a run
+					MaxRecoveryAttempts:  3,
+					RecoveryCheckFunc:    r.h.check,
+				}
+				// Rules of earlier scenarios stay loaded (fresh resource names per scenario): the library's retryer /
+				// recycler goroutines look the rule up asynchronously and crash the process on a rule that is gone.
+				if _, err := outlier.LoadRuleOfResource(name, rule); err != nil {
+					fatal("trace %d: LoadRuleOfResource: %v", r.tr, err)
+				}
 			}
-			// Rules of earlier scenarios stay loaded (fresh resource name per scenario): the library's retryer /
-			// recycler goroutines look the rule up asynchronously and crash the process on a rule that is gone.
-			if _, err := outlier.LoadRuleOfResource(r.res, rule); err != nil {
-				hx.Fatal("trace %d: LoadRuleOfResource: %v", r.tr, err)
+			r.res = r.names[0]
+			// empty the pool of entry contexts: the scenario does not depend on what earlier scenarios left in it
+			// (needed only if some entry since the last time was told a non-empty list: every entry is ours, and
+			// every entry's lists are read)
+			if dirty {
+				runtime.GC()
+				runtime.GC()
+				dirty = false
 			}
-			tr.Emit(hx.M{"op": "new", "tr": r.tr, "rule": rl, "pct": pct, "active": s["active"] == true})
+			tr.Emit(hx.M{"op": "new", "tr": r.tr, "cfgs": cfgs})
 		case "req":
 			id := hx.Int(s, "id")
-			e, b := api.Entry(r.res, api.WithTrafficType(base.Outbound), api.WithResourceType(base.ResTypeRPC), api.WithSlotChain(chain))
-			if b != nil {
-				hx.Fatal("trace %d: request blocked although no blocking rule is loaded: %v", r.tr, b.BlockType())
+			if r.entries[id] != nil {
+				fatal("trace %d: id %d is still open", r.tr, id)
 			}
-			filter := sorted(e.Context().FilterNodes())
-			half := sorted(e.Context().HalfOpenNodes())
+			e := entry(r.name(s))
+			filter, half := lists(e)
 			if !r.armed {
 				r.armed, r.started = true, time.Now()
 			}
 			r.entries[id] = e
-			tr.Emit(hx.M{"op": "req", "id": id, "filter": filter, "half": half})
+			tr.Emit(hx.M{"op": "req", "id": id, "res": resNo(s), "filter": filter, "half": half})
 			if r.recycle > 0 {
 				// The slot hands the rejecting nodes to the recycler / retryer goroutines through a channel.  In the
 				// timer scenarios "scheduled" must be ordered before the completions that follow, so give those
 				// goroutines time to take the task (nothing observable tells when they did).
 				time.Sleep(15 * time.Millisecond)
 			}
+		case "obs":
+			// a request that exits at once without naming a callee (the statistic slot ignores it)
+			f, h := r.observeRes(r.name(s))
+			if !r.armed {
+				r.armed, r.started = true, time.Now()
+			}
+			tr.Emit(hx.M{"op": "obs", "res": resNo(s), "filter": f, "half": h})
+			if r.recycle > 0 {
+				time.Sleep(15 * time.Millisecond)
+			}
 		case "done":
 			id := hx.Int(s, "id")
 			e := r.entries[id]
 			if e == nil {
-				hx.Fatal("trace %d: done for unknown id %d", r.tr, id)
+				fatal("trace %d: done for unknown id %d", r.tr, id)
 			}
 			delete(r.entries, id)
 			api.TraceCallee(e, hx.Str(s, "node"))
@@ -197,6 +289,15 @@ func main() {
 			}
 			e.Exit()
 			tr.Emit(hx.M{"op": "done", "id": id, "node": hx.Str(s, "node"), "err": s["err"] == true})
+		case "leave":
+			id := hx.Int(s, "id")
+			e := r.entries[id]
+			if e == nil {
+				fatal("trace %d: leave for unknown id %d", r.tr, id)
+			}
+			delete(r.entries, id)
+			e.Exit()
+			tr.Emit(hx.M{"op": "leave", "id": id})
 		case "tick":
 			clk.AdvanceMs(hx.Int(s, "d"))
 			tr.Emit(hx.M{"op": "tick", "t": clk.NowMs() - r.base})
@@ -206,7 +307,7 @@ func main() {
 			deadline := time.Now().Add(20 * time.Second)
 			for r.h.seen(node) == 0 {
 				if time.Now().After(deadline) {
-					hx.Fatal("trace %d: the retryer never checked node %s (timeout)", r.tr, node)
+					fatal("trace %d: the retryer never checked node %s (timeout)", r.tr, node)
 				}
 				time.Sleep(5 * time.Millisecond)
 			}
@@ -219,8 +320,37 @@ func main() {
 			// they move no breaker.  A poll after the first timer fired re-arms timers for nodes that still
 			// reject; those fire r.recycle later, so the observation is only sound while less than
 			// 2*r.recycle of real time elapsed since the first request: otherwise the scenario is retried.
+			//
+			// Recycling is observed through the reported lists, so the polls must not depend on a request that
+			// has "nothing to report" being answered correctly (that is judged by the sequential scenarios):
+			// a fresh node `pin' is made to fail first (recorded as ordinary req / done / obs lines) - it is
+			// handed to the recycler later than every node of the scenario, so while the scenario's timers fire
+			// some node still rejects and every poll is answered from the breakers.
 			sentinel := hx.Str(s, "sentinel")
-			deadline := time.Now().Add(30 * time.Second)
+			time.Sleep(30 * time.Millisecond) // pin's timer: clearly later than the timers of the scenario's nodes
+			pinned := false
+			for try := 0; try < 8 && !pinned; try++ { // as many failures as the rule needs to open pin's breaker
+				pe := entry(r.res)
+				pf0, ph0 := lists(pe)
+				tr.Emit(hx.M{"op": "req", "id": 90, "res": 1, "filter": pf0, "half": ph0})
+				api.TraceCallee(pe, "pin")
+				api.TraceError(pe, errors.New("callee failed"))
+				pe.Exit()
+				tr.Emit(hx.M{"op": "done", "id": 90, "node": "pin", "err": true})
+				pf, ph := r.observe()
+				tr.Emit(hx.M{"op": "obs", "res": 1, "filter": pf, "half": ph})
+				pinned = contains(pf, "pin")
+			}
+			if !pinned {
+				fatal("trace %d: node pin does not reject after 8 failures", r.tr)
+			}
+			time.Sleep(15 * time.Millisecond) // the recycler takes pin
+			if el := time.Since(r.started); el > r.recycle-150*time.Millisecond {
+				// a timer may have fired before the last recorded request: its answer cannot be judged
+				fatal("trace %d: the scenario took %v before the wait began: timing unsafe", r.tr, el)
+			}
+			// later than this the observation would be refused below anyway
+			deadline := r.started.Add(2*r.recycle + time.Second)
 			for {
 				f, h := r.observe()
 				if os.Getenv("C20_DEBUG") != "" {
@@ -230,9 +360,10 @@ func main() {
 					break
 				}
 				if time.Now().After(deadline) {
-					hx.Fatal("trace %d: node %s was not recycled within 30 s (timeout)", r.tr, sentinel)
+					fatal("trace %d: node %s was not recycled within %v (timeout); last poll filter=%v half=%v", r.tr, sentinel,
+						time.Since(r.started), f, h)
 				}
-				time.Sleep(20 * time.Millisecond)
+				time.Sleep(5 * time.Millisecond)
 			}
 			time.Sleep(120 * time.Millisecond) // timers armed by the same task fire together; let the callbacks finish
 			f, h := r.observe()
@@ -240,7 +371,7 @@ func main() {
 				fmt.Fprintf(os.Stderr, "final +%v filter=%v half=%v\n", time.Since(r.started), f, h)
 			}
 			if el := time.Since(r.started); el > 2*r.recycle-300*time.Millisecond {
-				hx.Fatal("trace %d: observation too late (%v after the first request): timing unsafe", r.tr, el)
+				fatal("trace %d: observation too late (%v after the first request): timing unsafe", r.tr, el)
 			}
 			vis := map[string]bool{}
 			for _, n := range append(f, h...) {
@@ -252,7 +383,7 @@ func main() {
 			}
 			tr.Emit(hx.M{"op": "recycle", "visible": sorted(visible)})
 		default:
-			hx.Fatal("unknown op %q", op)
+			fatal("unknown op %q", op)
 		}
 	}
 }
